@@ -14,7 +14,7 @@ FUNCTIONS = ["FullFrontend._get_solver", "FullFrontend._copy", "FullFrontend._ad
              "HybridFrontend._blank_copy"] + ["<SolverClass>.__init__/_blank_copy/_copy for " + c for c in ["Solver", "SolverCacheless", "SolverReplacement", "SolverHybrid", "SolverVSA", "SolverConcrete", "SolverStrings", "SolverComposite", "SolverCompositeChild"]]
 TRUSTED = _rtc.RTC_TRUSTED
 ASSUMPTIONS = ["declared shared cells: ASTs (immutable), the Z3 solver under _tls (copy-on-write by _get_solver: proved over a ghost backend, fullfrontend.*), composite children (_claim), the composite's template frontend",
-               "the composite-children protocol is only checked in the bounded part"]
+               "the composite-children copy-on-write protocol (_claim / _owned_solvers) is proved under C12 (composite.branch, composite._claim clauses) and by the statecov clause on the weak sets of children"]
 
 
 def tasks(tier, seed=0):
